@@ -23,6 +23,7 @@
     BITS    64
 
    GLOBAL_FUNC mpn_lshift
+	mov     ecx, ecx		; the count is an int argument: the upper half of its register is undefined
 	mov     eax, 64
 	sub     rax, rcx
 	movq    mm0, rcx
